@@ -97,3 +97,20 @@ Require Copia.Proofs.TieHubDelete.
 Theorem C12_handlers_are_translation_of_source : TieHubDelete.hub_delete_is_translation.
 Proof. exact TieHubDelete.hub_delete_is_translation_holds. Qed.
 Print Assumptions C12_handlers_are_translation_of_source.
+
+(** One iteration of the read loop of the theorems above is the translation of wire.rs `read_frame` as the source has it
+    now - four length bytes (fewer left = clean end), the MAX_FRAME test BEFORE the buffer is reserved, exactly that many
+    payload bytes, the decoder - followed by the dispatch (Gen/WireFrameGen.v, Proofs/TieWireFrame.v); and the
+    translated function never reserves more than MAX_FRAME bytes. *)
+Require Copia.Proofs.TieWireFrame.
+Theorem C12_framing_is_translation_of_source : TieWireFrame.wire_frame_is_translation.
+Proof. exact TieWireFrame.wire_frame_is_translation_holds. Qed.
+Print Assumptions C12_framing_is_translation_of_source.
+Theorem C12_translated_read_frame_alloc_bounded :
+  forall (request : Type) (decode : list BinNums.Z -> option request) (inp : list BinNums.Z),
+  match WireFrameGen.g_read_frame request decode inp with
+  | WireFrameGen.FShort _ a _ | WireFrameGen.FBad _ a _ | WireFrameGen.FOk _ a _ _ => (a <= Wire.MAX_FRAME)%Z
+  | _ => True
+  end.
+Proof. exact TieWireFrame.read_frame_alloc_bounded. Qed.
+Print Assumptions C12_translated_read_frame_alloc_bounded.
